@@ -231,7 +231,7 @@ CLAIMS = {
         category="other",
         text="Proved part: the numpy reshape kernels (from_3d_numpy_to_2d_array: cell (i, c*T + t) = X[i, c, t]; "
              "from_multi_index_to_3d_numpy: instance-major rows become (instance, column, time), rejects frames without 2 levels; "
-             "from_3d_numpy_to_nested: cell (i, j) = X[i, j, :] as Series or ndarray) and the "
+             "from_3d_numpy_to_nested: cell (i, j) = X[i, j, :] as Series or ndarray; _get_time_index of an array = range over its LAST axis) and the "
              "lemma that the 2-d layout loses nothing. Everything else in the property (nested / long / multi-index round trips through "
              "pandas pivots and object cells) is decided only by the bounded stand-in tier and is NOT counted as proved.",
         note="bounded tier: hand-built panels with 1..3 (thorough ..8) instances, 1..3 columns, 2..4 (..12) time points, 151k cases quick; "
@@ -261,11 +261,13 @@ CLAIMS = {
              "((weighted) vote shares counted through the ensemble's own class dictionary), IndividualBOSS.predict (label i = one "
              "nearest-neighbour query on bag i alone) and predict_proba (one-hot rows), RandomIntervalSpectralForest / "
              "SupervisedTimeSeriesForest predict_proba (average over trees, tree t on ITS interval / lag resp. intervals of the series, its "
-             "periodogram and first differences) and predict (arg-max decoding); lemmas: averages and vote shares of "
+             "periodogram and first differences) and predict (arg-max decoding), MUSE.predict / predict_proba (the fitted inner classifier's "
+             "output on the words of X, returned as is); flow lemma: fit of the three ensembles ends by setting the normaliser the vote "
+             "shares divide by; lemmas: averages and vote shares of "
              "distributions are distributions (entries in [0, 1], rows sum to 1 -- induction over the columns).",
         note="trees / members / label encoder abstract; np.mean, np.std, _slope along a row window are uninterpreted functions of the "
              "cells (assumed: _slope formula, _get_column, LabelEncoder.inverse_transform, accuracy_score); 1..3 trees / members; "
-             "MUSE, the feature values of RISE / STSF (_transform assumed / abstract), the 1-NN search / SFA words and the ensembles' random "
+             "MUSE's words and inner classifier, the feature values of RISE / STSF (_transform assumed / abstract), the 1-NN search / SFA words and the ensembles' random "
              "tie-breaking in predict are bounded-tier only (5k cases quick)",
         technique="contract-based deductive verification: AST->VC generation (pyvc) + z3; argmax axiomatisation, abstract components, induction lemmas",
         design="6/C17"),
